@@ -213,6 +213,7 @@ def run(ctx, cases, ref=False):
     failures, nontriv, skipped = [], set(), 0
     dist = collections.Counter()
     samples = []
+    selftest = []
     i = 0
     for c, s, p in zip(cases, outs, parsed):
         m = replies[i]       # exact model on the floats' exact values
@@ -258,6 +259,14 @@ def run(ctx, cases, ref=False):
             nontriv.add(canon_hash([inp["v_exact"], inp["e_exact"], c["style"], c["mode"], c["n"]]))
             dist["nontrivial:" + ("carry" if carry else "zero" if c["v"] == 0 or c["e"] == 0
                                   else "negative-order")] += 1
+        if not m.get("ok", True):
+            failures.append({"signature": "c09:model-not-ok:" + cls, "kind": "disagreement",
+                             "what": "the model's own output does not satisfy PrintedOK (contradicts "
+                                     "C09_model_ok: driver and proof out of step)", "input": inp,
+                             "expected": m["text"]})
+        if spec["ok"] and len(selftest) < 200 and (len(selftest) < 40 or carry):
+            selftest.append((dict(v=ratio(c["v"]), e=ratio(c["e"]), style=c["style"], mode=c["mode"],
+                                  n=c["n"]), p, spec))
         if not spec["ok"]:
             why = classify(c, p, spec)
             failures.append({"signature": "c09:spec:{}:{}".format(why, cls), "kind": "violation",
@@ -304,7 +313,37 @@ def run(ctx, cases, ref=False):
         if len(samples) < 5 and (carry or len(samples) < 2):
             samples.append({"input": {k: inp[k] for k in ("v", "e", "style", "mode", "n")},
                             "impl": s, "model": m["text"], "PrintedOK": spec["ok"]})
+    failures += spec_selftest(ctx, selftest, dist, ref)
     return failures, nontriv, skipped, dist, samples
+
+
+def spec_selftest(ctx, items, dist, ref=False):
+    """PrintedOK must not be vacuous: outputs it accepted are damaged (mantissa moved by two units of
+    the rounding place; one more printed decimal) and must then be rejected"""
+    lines, meta = [], []
+    for base, p, spec in items[:200]:
+        clipped = (not spec["pivotZero"]) and spec["place"] not in (spec["p0"], spec["p0"] + 1)
+        if clipped:
+            continue
+        a = dict(p, mv=str(int(p["mv"]) + 2))
+        lines.append(dict(base, cmd="print_spec", printed=a))
+        meta.append(("value moved by 2 units", base, a))
+        if not spec["pivotZero"] and spec["place"] == spec["p0"]:
+            b = dict(p, mv=str(int(p["mv"]) * 10), me=str(int(p["me"]) * 10), dv=p["dv"] + 1,
+                     de=p["de"] + 1)
+            lines.append(dict(base, cmd="print_spec", printed=b))
+            meta.append(("one more decimal than the place", base, b))
+    if not lines:
+        return []
+    out = []
+    for (what, base, pr), r in zip(meta, ctx.model(lines, ref=ref)):
+        dist["spec self-test: " + what + (" rejected" if not r.get("ok") else " ACCEPTED")] += 1
+        if r.get("ok"):
+            out.append({"signature": "c09:spec-selftest", "kind": "disagreement",
+                        "what": "PrintedOK accepted a damaged output (" + what + ")",
+                        "input": {"v": base["v"], "e": base["e"], "style": base["style"],
+                                  "mode": base["mode"], "n": base["n"]}, "impl": pr})
+    return out[:1]
 
 
 def corpus():
@@ -346,7 +385,7 @@ def make_cases(ctx, n_pairs, dist):
 
 def correspond(ctx, ref=False, boost=1):
     dist = collections.Counter()
-    cases = corpus() + make_cases(ctx, ctx.n(450, 9000) * boost, dist)
+    cases = corpus() + make_cases(ctx, ctx.n(450, 24000) * boost, dist)
     failures, nontriv, skipped, d2, samples = [], set(), 0, collections.Counter(), []
     CH = 40000
     for i in range(0, len(cases), CH):
